@@ -590,3 +590,6 @@ PROPS["C12"]["rule"] += (" Expiry part: facts and rules that expire at the next 
 PROPS["C10"]["rule"] += (" Rule ids are also overwritten by scheduled rules; with a parent, the parent location itself is disabled and "
                          "enabled again: while it is disabled none of its rules may be among the rules an event sent to the child "
                          "evaluates (what else such an event does is not specified).")
+PROPS["C15"]["rule"] += " In the sys.System part the client uses either a fresh core.Context per request or one context for all its requests to all locations."
+PROPS["C11"]["rule"] += (" Every engine starts from the process's first-use state (timer histories cleared); some rules take their tag "
+                         "from a library given as explicit code while their action text is the same in every location.")
